@@ -83,6 +83,28 @@ func goid() int64 {
 	return id
 }
 
+// mapParGoroutines counts the goroutines that were created by (or are running) funcutil.MapParallel:
+// their stack dump mentions it in a frame or in the "created by" line. Unrelated goroutines (runtime,
+// timers, finalizers, the harness) are not counted.
+func mapParGoroutines() int {
+	buf := make([]byte, 1<<20)
+	for {
+		n := runtime.Stack(buf, true)
+		if n < len(buf) {
+			buf = buf[:n]
+			break
+		}
+		buf = make([]byte, 2*len(buf))
+	}
+	c := 0
+	for _, blk := range strings.Split(string(buf), "\n\n") {
+		if strings.Contains(blk, "funcutil.MapParallel") {
+			c++
+		}
+	}
+	return c
+}
+
 type event struct {
 	kind byte
 	idx  int
@@ -104,16 +126,6 @@ var patName = []string{"none", "reverse-sleep", "gosched", "barrier", "rand-slee
 func runScenario(s scen, w *bufio.Writer) {
 	fmt.Fprintf(w, "begin %s\n", s)
 	w.Flush()
-	// settle
-	base := runtime.NumGoroutine()
-	for k := 0; k < 50; k++ {
-		time.Sleep(200 * time.Microsecond)
-		b := runtime.NumGoroutine()
-		if b == base {
-			break
-		}
-		base = b
-	}
 	eff := effWorkers(s.n)
 	a := make([]int, s.length)
 	for i := range a {
@@ -122,7 +134,7 @@ func runScenario(s scen, w *bufio.Writer) {
 	var mu sync.Mutex
 	var events []event
 	slots := map[int64]int{}
-	inflight, maxc, peakG := 0, 0, 0
+	inflight, maxc := 0, 0
 	started := make([]bool, s.length)
 	nStarted := 0
 	forcedTimeout := false
@@ -131,10 +143,10 @@ func runScenario(s scen, w *bufio.Writer) {
 	if s.length < party {
 		party = s.length
 	}
-	// waitUntil blocks (holding no lock while sleeping) until pred holds or 10 s passed
+	// waitUntil blocks (holding no lock while sleeping) until pred holds or 60 s passed
 	waitUntil := func(pred func() bool) {
-		deadline := time.Now().Add(10 * time.Second)
-		timer := time.AfterFunc(10*time.Second, func() { mu.Lock(); cond.Broadcast(); mu.Unlock() })
+		deadline := time.Now().Add(60 * time.Second)
+		timer := time.AfterFunc(61*time.Second, func() { mu.Lock(); cond.Broadcast(); mu.Unlock() })
 		defer timer.Stop()
 		mu.Lock()
 		for !pred() {
@@ -158,9 +170,6 @@ func runScenario(s scen, w *bufio.Writer) {
 		inflight++
 		if inflight > maxc {
 			maxc = inflight
-		}
-		if ng := runtime.NumGoroutine(); ng > peakG {
-			peakG = ng
 		}
 		if x >= 0 && x < len(started) && !started[x] {
 			started[x] = true
@@ -202,7 +211,7 @@ func runScenario(s scen, w *bufio.Writer) {
 	}()
 	select {
 	case <-done:
-	case <-time.After(60 * time.Second):
+	case <-time.After(240 * time.Second):
 		buf := make([]byte, 1<<20)
 		n := runtime.Stack(buf, true)
 		fmt.Fprintf(w, "deadlock %s\n", s.id)
@@ -210,10 +219,10 @@ func runScenario(s scen, w *bufio.Writer) {
 		os.Stderr.Write(buf[:n])
 		os.Exit(3)
 	}
-	// goroutines back to baseline (exits are asynchronous after close(out))
+	// no goroutine of MapParallel survives its return (exits are asynchronous after close(out): poll)
 	leak := 0
-	for k := 0; k < 400; k++ {
-		leak = runtime.NumGoroutine() - base
+	for k := 0; k < 3000; k++ {
+		leak = mapParGoroutines()
 		if leak <= 0 {
 			break
 		}
@@ -256,8 +265,8 @@ func runScenario(s scen, w *bufio.Writer) {
 			}
 		}
 	}
-	fmt.Fprintf(w, "meta %s seqok=%v leak=%d maxc=%d slots=%d peak=%d forcedTimeout=%v ooo=%d\n",
-		s.id, seqok, leak, maxc, len(slots), peakG-base, forcedTimeout, ooo)
+	fmt.Fprintf(w, "meta %s seqok=%v leak=%d maxc=%d slots=%d forcedTimeout=%v ooo=%d\n",
+		s.id, seqok, leak, maxc, len(slots), forcedTimeout, ooo)
 	w.Flush()
 }
 
@@ -363,7 +372,7 @@ func runM2(rep *lib.Report) {
 	if err != nil || !ended {
 		what := "the real MapParallel crashed"
 		if strings.Contains(out.String(), "deadlock ") {
-			what = "the real MapParallel did not return within 60 s (deadlock)"
+			what = "the real MapParallel did not return within 240 s (deadlock)"
 		}
 		content := fmt.Sprintf("scenario (id length numRoutines pattern pseed): %s\npattern: see harness/cmd/c20 (a[i]=i, f(x)=3x+1 instrumented)\nexit: %v\n--- stderr of the child ---\n%s\n",
 			lastBegin, err, tail(errb.String(), 6000))
@@ -422,7 +431,7 @@ func runM2(rep *lib.Report) {
 			continue
 		}
 		if lk, _ := strconv.Atoi(m["leak"]); lk > 0 {
-			rep.Fail("m2-leak-"+key, fmt.Sprintf("%d goroutine(s) still alive 2 s after MapParallel returned (%s)", lk, key), replay(""), false)
+			rep.Fail("m2-leak-"+key, fmt.Sprintf("%d goroutine(s) created by MapParallel still alive 15 s after it returned (%s)", lk, key), replay(""), false)
 			continue
 		}
 		v := verdict[s.id]
@@ -443,7 +452,7 @@ func runM2(rep *lib.Report) {
 			party = s.length
 		}
 		if m["forcedTimeout"] == "true" {
-			rep.Fail("m2-forced-"+key, "a schedule the LTS admits ("+patName[s.pattern]+") was not realised by the real code within 10 s: fewer than numRoutines workers are running ("+key+")", replay(""), true)
+			rep.Fail("m2-forced-"+key, "a schedule the LTS admits ("+patName[s.pattern]+") was not realised by the real code within 60 s: fewer than numRoutines workers are running ("+key+")", replay(""), true)
 			continue
 		}
 		if s.pattern == patBarrier {
@@ -451,10 +460,6 @@ func runM2(rep *lib.Report) {
 				rep.Fail("m2-conc-"+key, fmt.Sprintf("barrier pattern: %d calls of f in flight, model has %d (%s)", mc, party, key), replay(""), true)
 				continue
 			}
-		}
-		if pk, _ := strconv.Atoi(m["peak"]); pk > eff+3 {
-			rep.Fail("m2-peak-"+key, fmt.Sprintf("%d goroutines above baseline while running, model has numRoutines+2=%d (+1 harness) (%s)", pk, eff+2, key), replay(""), true)
-			continue
 		}
 		o, _ := strconv.Atoi(m["ooo"])
 		oooTotal += o
@@ -528,7 +533,10 @@ func runRace(rep *lib.Report, joinCode int) {
 	b.Env = goEnv()
 	t0 := time.Now()
 	if out, err := b.CombinedOutput(); err != nil {
-		rep.Fail("race-build", "go build -race of the analysis failed: "+tail(string(out), 2000), out, true)
+		// no race detector in this environment (cgo / C compiler missing, …): the memory-level search cannot run.
+		// (If the harness itself no longer built, ./check has already reported it.)
+		rep.Notes = append(rep.Notes, "go build -race failed, race-detector part skipped: "+tail(string(out), 600))
+		rep.Extra["race_part"] = "skipped: go build -race failed"
 		return
 	}
 	rep.Extra["race_build_s"] = time.Since(t0).Seconds()
@@ -603,8 +611,16 @@ func runRace(rep *lib.Report, joinCode int) {
 		}
 	}
 	for _, e := range childErr {
-		fatal := strings.Contains(e, "fatal error: concurrent map")
-		rep.Fail("race-child", "the race-detector run of the real analysis did not complete: "+strings.SplitN(e, "\n", 2)[0], []byte(e), !fatal)
+		if strings.Contains(e, "fatal error: concurrent map") {
+			key := "race-fatal-concurrent-map"
+			if strings.Contains(e, "BuildGraph") {
+				key = f6Key
+			}
+			rep.Fail(key, "the Go runtime aborted the real analysis: concurrent map access: "+strings.SplitN(e, "\n", 2)[0], []byte(e), false)
+		} else {
+			// time-out on a loaded machine, missing tool, … : inconclusive, not evidence
+			rep.Notes = append(rep.Notes, "race-detector child did not complete (inconclusive): "+strings.SplitN(e, "\n", 2)[0])
+		}
 	}
 	// (a) report file complete when the analysis returns
 	incomplete := 0
